@@ -40,7 +40,7 @@ static std::string jbytes(std::string const &v)
 	for(size_t i=0;i<v.size();i++) { snprintf(b,sizeof(b),i?",%u":"%u",(unsigned)(unsigned char)v[i]); r+=b; }
 	return r+"]";
 }
-static std::string jstr(std::string const &v) { std::string r="\""; for(size_t i=0;i<v.size();i++){ char c=v[i]; if(c=='"'||c=='\\'){r+='\\';} r+=c; } return r+"\""; }
+static std::string jstr(std::string const &v) { std::string r="\""; for(size_t i=0;i<v.size();i++){ unsigned char c=v[i]; if(c=='"'||c=='\\'){r+='\\'; r+=char(c);} else if(c<0x20||c>=0x7f){ char b[8]; snprintf(b,sizeof(b),"\\u%04x",c); r+=b; } else r+=char(c); } return r+"\""; }
 static std::string itos(long v) { char b[32]; snprintf(b,sizeof(b),"%ld",v); return b; }
 
 // ------------------------------------------------------------------ pattern family
@@ -423,6 +423,12 @@ static void run_cfg_requests(Cfg const &c,std::vector<std::string> const &reqs,s
 	node_app::by_id().clear();
 	node_app root(*g_srv,c,1); n_cfg++;
 	for(size_t m=0;m<meths.size();m++) for(size_t r=0;r<reqs.size();r++) do_req(root,meths[m],reqs[r]);
+	// a word of a language followed by a line end is only a PREFIX match: paths and methods
+	static const char *nl[3]={"\n","\r\n","\n/a"};
+	for(size_t r=0;r<reqs.size() && r<6;r++) {
+		for(int k=0;k<3;k++) do_req(root,"GET",reqs[r]+nl[k]);
+		do_req(root,"GET\n",reqs[r]); do_req(root,"POST\r\n",reqs[r]); do_req(root,"GET\nX",reqs[r]);
+	}
 }
 static void mode_fam(int maxseg,int shard,int nshards)
 {
@@ -550,12 +556,13 @@ static int build_rnd(Cfg &c,int parent,int depth,vt::rng &rnd,int &hid)
 }
 static std::string edit(std::string s,vt::rng &rnd)
 {
-	static const char al[]="/a1b-_ A.";
-	switch(rnd(4)) {
-	case 0: s.insert(rnd(s.size()+1),1,al[rnd(9)]); break;
+	static const char al[]="/a1b-_ A.\n\r";
+	switch(rnd(5)) {
+	case 0: s.insert(rnd(s.size()+1),1,al[rnd(11)]); break;
 	case 1: if(!s.empty()) s.erase(rnd(s.size()),1); break;
-	case 2: if(!s.empty()) s[rnd(s.size())]=al[rnd(9)]; break;
-	default: s+=al[rnd(9)]; break;
+	case 2: if(!s.empty()) s[rnd(s.size())]=al[rnd(11)]; break;
+	case 3: { static const char *nl[]={"\n","\r\n","\n/a","\nx"}; s+=nl[rnd(4)]; } break;   // word + line end (+ more text)
+	default: s+=al[rnd(11)]; break;
 	}
 	return s;
 }
@@ -572,7 +579,7 @@ static std::string sample_url(Cfg const &c,int n,vt::rng &rnd,int depth=0)
 }
 static void mode_rand(long configs,long reqs,vt::rng &rnd)
 {
-	static const char *ms[]={"GET","POST","get","PUT","DELETE","GETX","GE","Get"};
+	static const char *ms[]={"GET","POST","get","PUT","DELETE","GETX","GE","Get","GET\n","POST\n","DELETE\r\n","GET\nX","get\n","PUT\n"};
 	for(long ci=0;ci<configs;ci++) {
 		Cfg c; int hid=0; build_rnd(c,0,1,rnd,hid);
 		std::string prefix = rnd(3)==0 ? "/script.cgi" : "";
@@ -588,7 +595,7 @@ static void mode_rand(long configs,long reqs,vt::rng &rnd)
 			if(k<5) p=sample_url(c,1,rnd);
 			else if(k<9) { p=sample_url(c,1,rnd); p=edit(p,rnd); if(rnd(3)==0) p=edit(p,rnd); }
 			else { size_t l=rnd(8); for(size_t i=0;i<l;i++) p+="/a1b-_"[rnd(6)]; }
-			do_req(root,ms[rnd(rnd(2)?2:8)],p);
+			do_req(root,ms[rnd(rnd(2)?2:14)],p);
 		}
 		// every key of every node, from every node, in every form
 		for(size_t t=0;t<c.size();t++) for(size_t ki=0;ki<c[t].keys.size();ki++) {
@@ -656,14 +663,14 @@ static void mode_pool(long configs,long reqs,vt::rng &rnd)
 		std::vector<MP> mps; std::vector<booster::shared_ptr<cppcms::application_specific_pool> > pools;
 		std::string s="{\"e\":\"Pool\",\"mps\":[";
 		for(size_t i=0;i<n;i++) {
-			MP m; m.rxv=rnd(4); m.sel=rnd(3)?"path":"script"; m.hh=rnd(3)==0; m.hs=rnd(2); m.hp=rnd(4)!=0;
+			MP m; m.rxv=rnd(4); m.sel=rnd(3)?"path":"script"; m.hh=rnd(2); m.hs=rnd(2); m.hp=rnd(4)!=0;
 			if(m.hh) m.host=host_pat(rnd);
 			bool selpath=m.sel=="path";
 			if(m.hs) { m.script = selpath ? Pat(1,L(scripts[1+rnd(6)])) : rnd_pat(rnd,rnd(2)); }
 			if(m.hp) { m.path = selpath ? rnd_pat(rnd,rnd(2)) : rnd_pat(rnd,false); }
 			Pat const &sp = selpath ? m.path : m.script;
 			bool hsel = selpath ? m.hp : m.hs;
-			m.grp = hsel ? (int)rnd(ngroups(sp)+1) : 0;
+			m.grp = (hsel && rnd(2)) ? (int)rnd(ngroups(sp)+1) : 0;
 			mps.push_back(m);
 			if(i) s+=",";
 			s+="{\"sel\":\""+m.sel+"\",\"host\":"+jopt(m.hh,m.host,m.rxv)+",\"script\":"+jopt(m.hs,m.script,m.rxv)+",\"path\":"+jopt(m.hp,m.path,m.rxv)+",\"grp\":"+itos(m.grp)+"}";
@@ -682,7 +689,19 @@ static void mode_pool(long configs,long reqs,vt::rng &rnd)
 			std::string h = (m.hh && rnd(2)) ? sample_pat(m.host,rnd) : hosts[rnd(10)];
 			std::string sc = (m.hs && rnd(3)) ? sample_pat(m.script,rnd) : scripts[rnd(7)];
 			std::string p = (m.hp && rnd(3)) ? sample_pat(m.path,rnd) : std::string("/")+VOC[rnd(8)];
-			if(rnd(3)==0) { switch(rnd(3)) { case 0: h=edit(h,rnd); break; case 1: sc=edit(sc,rnd); break; default: p=edit(p,rnd); } }
+			unsigned nm=rnd(4);
+			if(nm==0) { switch(rnd(3)) { case 0: h=edit(h,rnd); break; case 1: sc=edit(sc,rnd); break; default: p=edit(p,rnd); } }
+			else if(nm==1) {
+				// everything in the languages of this mount point, then ONE part gets a line end appended:
+				// host / non-selected part / selected part (group 0 or not) must all be matched entirely
+				h = m.hh ? sample_pat(m.host,rnd) : hosts[rnd(10)];
+				sc = m.hs ? sample_pat(m.script,rnd) : scripts[rnd(7)];
+				p = m.hp ? sample_pat(m.path,rnd) : std::string("/")+VOC[rnd(8)];
+				static const char *nl[]={"\n","\r\n","\nx","\n/a"};
+				std::string *t[3]={&h,&sc,&p}; bool has[3]={m.hh,m.hs,m.hp};
+				int w=rnd(3); for(int k=0;k<3 && !has[w];k++) w=(w+1)%3;
+				*t[w]+=nl[rnd(4)];
+			}
 			std::string matched;
 			booster::shared_ptr<cppcms::application_specific_pool> pl=g_srv->applications_pool().get_application_specific_pool(h.c_str(),sc.c_str(),p.c_str(),matched);
 			int idx=0; for(size_t i=0;i<pools.size();i++) if(pools[i]==pl) idx=i+1;
